@@ -1,8 +1,32 @@
 /-
   C09 — The type graph is a complete dependency order with every cycle cut.
 
-  Theorems about `Model/Graph.lean` (the loop of `typelib.graph.get_type_graph` over an abstract
-  annotation graph + graphlib's insertion-ordered Kahn), over ALL finite annotation graphs.
+  Theorems about `Model/Graph.lean` (the loop of `typelib.graph.get_type_graph` over an abstract annotation
+  graph + graphlib's insertion-ordered Kahn), over ALL finite annotation graphs (no bound on size).
+
+  Hypothesis `WF g rk` (decidable form `Graph.wf g = true`, `wf_sound`): every cycle of the member relation passes
+  through a named non-stdlib type (rank certificate), members of stdlib types are stdlib types, `unwrap` is
+  idempotent and a type has the member types of its unwrapped type.  The harness evaluates `Graph.wf` on the graph
+  extracted from the real objects on every case.
+
+    (a) build_terminates      fuel ≥ Graph.fuelBound g  ⇒  the loop finishes
+        loop_diverges / loopG_not_wf        an anonymous self-containing type: not wf, the loop never finishes
+    (b) edges_acyclic         no cycle among the edges handed to graphlib (CycleError impossible)
+        stdClosed_needed      without "members of stdlib types are stdlib" a cycle arises (the shape of the
+                              defects repaired by 612940b / f6f9920 in inspection.isstdlibtype)
+    (c) for every topological order `o` of the produced edges (IsTopoOrder = graphlib's contract;
+        checkTopo_sound: the certificate the driver evaluates on each sequence it reports):
+        order_nodup, root_last, members_precede,
+        ref_iff_flagged_named, ref_flagged, flagged_revisit      (forward reference ⇔ flagged ∧ named non-stdlib;
+                                                                  flagged ⇒ revisit of a type with an unflagged node)
+        deferred_denotes                                          (a deferred node carries the name and the exact type
+                                                                  id of a member of a later node; uref rule)
+    alias_root_same_graph     a NewType / value-alias root and the type it stands for give the same `add` calls up
+                              to the root node's label
+    leaf_root_single          a root without members (string-valued alias) is a single node
+
+  Not proved here (assumption, compared exactly with graphlib on every harness case): that the model's Kahn order
+  `staticOrder` is a topological order for EVERY input; it is certificate-checked (`checkTopo`) per case.
 -/
 import TypelibModel.Model.Graph
 namespace Typelib.C09
@@ -1590,5 +1614,69 @@ theorem alias_root_same_graph (hidem : ∀ t, g.unw (g.unw t) = g.unw t) {r fuel
     rw [hr2]
     simp only [Option.map_some, ha2]
     simp [init, rootNode, plainNode, hk, hp]
+
+/-! ## 13. A root without members (in particular a string-valued alias) is a single node -/
+
+/-- A root whose unwrapped type has no members — a string-valued alias unwraps to a bare `ForwardRef`, which has
+    none — gives one `add` without predecessors: the sequence is the single root node, whose `unwrapped` is
+    `unwrap(root)` (for the string alias: the forward reference to its body). -/
+theorem leaf_root_single (root fuel : Nat) (h : g.kids root = []) :
+    build g root (fuel + 1) = some [(rootNode g root, [])] := by
+  cases fuel <;> simp [build, run, init, stepWith, rootNode, plainNode, h, expand_nil]
+
+theorem single_order {n : Node} {o : List Node} (ho : IsTopoOrder [(n, [])] o) : o = [n] := by
+  have hmem : ∀ x, x ∈ o ↔ x = n := by
+    intro x; rw [ho.complete]; simp [allNodes]
+  cases o with
+  | nil => exact absurd ((hmem n).2 rfl) (by simp)
+  | cons x xs =>
+    have hx : x = n := (hmem x).1 (by simp)
+    subst hx
+    have hnd := ho.nodup
+    rw [List.nodup_cons] at hnd
+    have : xs = [] := by
+      apply List.eq_nil_iff_forall_not_mem.2
+      intro y hy
+      have := (hmem y).1 (List.mem_cons_of_mem _ hy)
+      subst this
+      exact hnd.1 hy
+    rw [this]
+
+/-- `AL = TypeAliasType("AL", "list[int]")` as root: 0 = AL, 1 = ForwardRef('list[int]'). -/
+def gStrAlias : TyGraph := { tys := [ti true false 1 false [], ti false false 1 false []] }
+
+example : build gStrAlias 0 1 = some [(N 0 1 none false false, [])] := leaf_root_single 0 0 rfl
+example : wf gStrAlias = true := by decide
+
+/-! ## 14. Every theorem instantiated on a real recursive program (`Head` / `LNode`) -/
+
+def aHead : Adds := (build gHead 0 8).getD []
+
+example : build gHead 0 8 = some aHead := by decide
+
+example :
+    -- (c1) (c2)
+    oHead.Nodup ∧ oHead.getLast? = some (rootNode gHead 0)
+    -- (c3) the members of `Head` (x: Optional[LNode]) and of the re-walked Optional[LNode] come first
+    ∧ (∃ m ∈ oHead, m.var = some ['x'] ∧ m.ty = 1 ∧ oHead.idxOf m < oHead.idxOf (N 0 0 none false false))
+    -- (c4) the reference to LNode is flagged, it is a reference because LNode is named and non-stdlib,
+    --      and it revisits LNode, which has an unflagged node of its own
+    ∧ (N 2 2 none true true).cyclic = true
+    ∧ (N 2 2 none true true).isRef = ((N 2 2 none true true).cyclic && gHead.cuttable 2)
+    ∧ (∃ m ∈ oHead, m.cyclic = false ∧ m.isRef = false ∧ gHead.unw m.ty = gHead.unw 2)
+    -- (c5) it stands for the member `LNode` of the later re-walked Optional[LNode]
+    ∧ (∃ p ∈ oHead, p.isRef = false ∧ (none, 2) ∈ gHead.kids p.ty ∧
+        oHead.idxOf (N 2 2 none true true) < oHead.idxOf p)
+    -- (b)
+    ∧ (∀ n, ¬ Relation.TransGen (Edge aHead) n n) := by
+  have hb : build gHead 0 8 = some aHead := by decide
+  have ho : IsTopoOrder aHead oHead := checkTopo_sound (by decide)
+  have hw : WF gHead (rank gHead) := wf_sound (by decide)
+  have hroot : N 0 0 none false false ∈ oHead := by decide
+  have href : N 2 2 none true true ∈ oHead := by decide
+  refine ⟨order_nodup hb ho, root_last hb ho, ?_, ref_flagged hb ho href rfl, ref_iff_flagged_named hb ho href,
+    flagged_revisit hw hb ho href rfl, (deferred_denotes hb ho href rfl).1, edges_acyclic hw hb⟩
+  obtain ⟨m, hm, h1, h2, h3⟩ := members_precede hb ho hroot rfl (some ['x'], 1) (by decide)
+  exact ⟨m, hm, h1, h2, h3⟩
 
 end Typelib.C09
